@@ -34,8 +34,8 @@ NODE_FLAG_SETTERS = ["flag_as_page", "unflag_as_page", "flag_as_crawled", "unfla
 NODE_FIELD_SETTERS = ["set_left", "set_right", "set_child", "set_parent", "set_outlinks", "set_inlinks", "set_webentity", "unset_webentity"]
 
 
-def T(chain, fn, shards=1, tier="quick"):
-    return (chain[0], fn, chain[1], shards, tier)
+def T(chain, fn, shards=1, tier="quick", only=""):
+    return (chain[0], fn, chain[1], shards, tier, only)
 
 
 def node(names):
@@ -45,7 +45,13 @@ def node(names):
 NODE_RW = [T(NO, "LRUTrieNode.read", 2), T(NO, "LRUTrieNode.write", 8), T(NO, "LRUTrieNode.set_stem")]
 CHUNKS = [T(HE, "detailed_chunks_iter", 4)]
 ENSURE = [T(TR, "LRUTrie.__ensure_stem_from_siblings", 8)]
-ADD_LRU = [T(TR, "LRUTrie.add_lru", 16, "thorough")]
+# add_lru: the whole function in the thorough tier (7 min); in the quick tier the
+# obligations of its descending loop (entry and preservation of every invariant clause
+# across __ensure_stem_from_siblings, the flag write and read_child)
+ADD_LRU = [T(TR, "LRUTrie.add_lru", 16, "thorough"), T(TR, "LRUTrie.add_lru", 16, "quick-only", only="while#0:")]
+# C13 also needs the hand-over to the child-creation loop (where the last existing
+# ancestor must already be unmarked)
+ADD_LRU_C13 = [T(TR, "LRUTrie.add_lru", 16, "thorough"), T(TR, "LRUTrie.add_lru", 16, "quick-only", only="while#0:|while#1:entry")]
 STORAGE = [T(ST, f, 2 if f.endswith(".write") else 1) for f in STORAGE_FNS]
 LINK_NODE = [T(LK, "LinkStoreNode." + n) for n in ("has_previous", "previous", "has_target", "target", "set_previous", "set_target", "read")]
 ADD_LINKS = [T(LK, "LinkStore.add_links", 8)]
@@ -69,7 +75,7 @@ DEDUCTIVE = {
     "C10": node(["has_outlinks", "outlinks", "is_page"]),
     "C11": STORAGE + IDS[1:],
     "C12": IDS,
-    "C13": node(["can_have_child_webentities", "flag_can_have_child_webentities", "has_parent", "parent"]) + ENSURE + EDITS + ADD_LRU,
+    "C13": node(["can_have_child_webentities", "flag_can_have_child_webentities", "has_parent", "parent"]) + ENSURE + EDITS + ADD_LRU_C13,
     "C14": [T(ST, f) for f in ("MemoryStorage.read", "FileStorage.read", "MemMapStorage.read", "MemoryStorage.__len__", "FileStorage.__len__", "FileStorage.check_for_corruption")] + [T(NO, "LRUTrieNode.read", 2)] + node(NODE_ACCESSORS) + READERS,
     "C15": STORAGE + [T(NO, "LRUTrieNode.read", 2)],
     "C16": NODE_RW[:2] + ADD_LINKS,
